@@ -263,7 +263,15 @@ impl VM {
                 }
                 OpCode::GetGlobal => {
                     let idx = self.read_u16();
-                    let value = self.globals[idx as usize];
+                    // a global can be referenced before it was ever assigned (e.g. `stel x = x`)
+                    let value = match self.globals.get(idx as usize) {
+                        Some(value) => *value,
+                        None => {
+                            return Err(Error::ReferenceError(
+                                "variabele heeft nog geen waarde".to_string(),
+                            ))
+                        }
+                    };
                     self.push(value);
                 }
                 OpCode::SetLocal => {
